@@ -13,6 +13,23 @@ open SaModel SaModel.Build
 
 def malformed {α} : R α := fail "malformed-stream"
 
+/-- what a string means for the VALUE type of a dictionary column.  `build_builder` takes ANY value type for a
+`Dictionary`; the value builder receives every distinct string once, through `serialize_str`: the string types keep the
+string, the temporal and decimal types store the PARSED value (`Dictionary(Int8, Date32)` holds dates), a nested
+dictionary hands the string on to its own value type, every other type refuses strings. -/
+def interpDictStr (ext : Ext) : DataType → String → R LVal
+  | .utf8, s | .largeUtf8, s | .utf8View, s => .ok (.str (strBytes s))
+  | .date32, s => do pure (.int (← ext.parseDate false s))
+  | .date64, s => do pure (.int (← ext.parseDate true s))
+  | .time32 u, s => do pure (.int (← tryInto .i32 (← ext.parseTime u s)))
+  | .time64 u, s => do pure (.int (← ext.parseTime u s))
+  | .timestamp u tz, s => do
+    pure (.int (← ext.parseTimestamp u (match tz with | some t => t.toUpper == "UTC" | none => false) s))
+  | .duration u, s => do pure (.int (← ext.parseDuration u s))
+  | .decimal128 p sc, s => do pure (.int (← ext.parseDecimal p sc s))
+  | .dictionary _ v, s => interpDictStr ext v s
+  | _, _ => fail "the value type of the dictionary takes no strings"
+
 /-- plain scalars -/
 def interpScalar (ext : Ext) (dt : DataType) (x : SVal) : R LVal :=
   let kind : Option LeafKind :=
@@ -47,9 +64,10 @@ def interpScalar (ext : Ext) (dt : DataType) (x : SVal) : R LVal :=
       match x with
       | .bytes b => if (b.length : Int) = n then .ok (.bin b) else fail "wrong length"
       | _ => fail "not bytes"
-    | .dictionary _ _ =>
+    | .dictionary _ v =>
+      -- the scalars a string column accepts, as strings, at the VALUE type of the dictionary
       match scalarToString ext x with
-      | some s => .ok (.str (strBytes s))
+      | some s => interpDictStr ext v s
       | none => fail "not a string"
     | .null =>
       match x with
